@@ -16,3 +16,8 @@ func hostRegexp(e *Engine, v V) *regexp.Regexp {
 }
 
 func typesString() types.Type { return types.Typ[types.String] }
+
+type re2 struct {
+	re  *regexp.Regexp
+	src string
+}
